@@ -1616,3 +1616,9 @@ mod tests {
         }
     */
 }
+
+/// Verification hooks for C11 (feature `verif-hooks`, add-only). A child
+/// module of `rib` because the two stores are private fields of `Rib`.
+#[cfg(feature = "verif-hooks")]
+#[path = "verif_hooks_c11_rib.rs"]
+pub mod verif_hooks_c11_rib;
